@@ -126,6 +126,16 @@ def hand(attrs, kwargs, aliases=(), params=(), tp=(), bounds=(), cid=None) -> st
     return f"{hdr} {klass} (kwargs {' '.join(kwargs)}) (modes hand)"
 
 
+
+def extra_obligations():
+    """small methods of `State` / `StateAttribute` regenerated from /repo's structure.py as MiniPy terms: `__setattr__` and
+    `__delattr__` refuse with AttributeError whatever the arguments, `__copy__` / `__deepcopy__` return the instance itself,
+    `StateAttribute.validated` applies the validator exactly once - to the default iff the argument *is* MISSING"""
+    from harness import core, regen
+
+    return [e for e in regen.check("stateobj", core.REPO, core.LEAN) if "validated_once" in e["name"]]
+
+
 def corpus():
     I, S, F = "(cls 3)", "(cls 5)", "(cls 4)"
     return [
